@@ -844,7 +844,11 @@ class Rig:
             expect.update(model.stop(self.now, flag))
         self.end_housekeeping()
         start = len(self.handoffs)
-        self.provider.stop_all(send_subscription_end=flag)
+        try:
+            self.provider.stop_all(send_subscription_end=flag)
+        except Exception as ex:  # noqa: BLE001   judged by its consequences: which SubscriptionEnd messages were (not) handed over
+            ctx.count(f'stop.raised.{type(ex).__name__}')
+            self.stop_raised = repr(ex)[:200]
         self.stopped = True
         ctx.count(f'stop.send_end_{flag}')
         got: dict = {}
